@@ -380,6 +380,15 @@ func TestC05(t *testing.T) {
 		return
 	}
 	fams := gen.NameFamilies(r.Thorough())
+	// 32-nibble names of IPv4-mapped addresses and of their neighbours: a /128, never an IPv4 /32
+	{
+		var xs []string
+		for _, a := range gen.MappedNeighbours() {
+			n := ref.CanonArpa(netip.AddrFrom16(a))
+			xs = append(xs, n, "host."+gen.UpperASCII(n)+".", n[2:], n[8:])
+		}
+		fams = append(fams, gen.List("mapped_ip6_names", xs))
+	}
 	// canonical prefixes of every length: all must decode to themselves
 	var canon []string
 	rng := r.Rand(7)
